@@ -566,6 +566,28 @@ impl Fixture {
 	}
 }
 
+/// WebSocket session on an explicit (builder, methods, stop handle) triple (for fixtures that must drop their own StopHandle).
+pub async fn ws_on(builder: &TowerServiceBuilder<Identity, Identity>, methods: &Methods, stop: &StopHandle, duplex_size: usize) -> Result<WsPeer, String> {
+	let svc = builder.clone().build(methods.clone(), stop.clone());
+	let (client_io, server_io) = tokio::io::duplex(duplex_size);
+	let stop = stop.clone();
+	let conn = tokio::spawn(async move {
+		let _ = jsonrpsee_server::serve_with_graceful_shutdown(server_io, svc, stop.shutdown()).await;
+	});
+	WsPeer::connect(client_io, conn).await
+}
+
+/// Raw HTTP/1.1 connection on an explicit (builder, methods, stop handle) triple.
+pub fn raw_conn_on(builder: &TowerServiceBuilder<Identity, Identity>, methods: &Methods, stop: &StopHandle, duplex_size: usize) -> (tokio::io::DuplexStream, tokio::task::JoinHandle<()>) {
+	let svc = builder.clone().build(methods.clone(), stop.clone());
+	let (client_io, server_io) = tokio::io::duplex(duplex_size);
+	let stop = stop.clone();
+	let conn = tokio::spawn(async move {
+		let _ = jsonrpsee_server::serve_with_graceful_shutdown(server_io, svc, stop.shutdown()).await;
+	});
+	(client_io, conn)
+}
+
 impl Fixture {
 	/// A raw in-memory connection served by hyper (`serve_with_graceful_shutdown`): the caller writes HTTP/1.1 bytes.
 	pub fn raw_conn(&self, duplex_size: usize) -> (tokio::io::DuplexStream, tokio::task::JoinHandle<()>) {
